@@ -228,6 +228,11 @@ fn backend<B: Backend>(opts: &Opts, rep: &mut Report) {
                 if opts.mine(idx) {
                     probe_case::<B>(rep, &other, "wrong-key", &tok, aad);
                     probe_case::<B>(rep, &kp, "wrong-assertion", &tok, b"another assertion");
+                    if aad.is_empty() {
+                        for ws in [&b" "[..], b"\n", b"\t\r\n "] {
+                            probe_case::<B>(rep, &kp, "whitespace-only-assertion", &tok, ws);
+                        }
+                    }
                     // keys one bit away from the right one, each tried right after the right key has unsealed
                     // the token on this thread (what the right key derived must not serve the wrong one)
                     if let KeyPair::Local(_) = &kp {
